@@ -415,6 +415,9 @@ func (tic *TermInCommittee) validatePreprepare(ppm *interfaces.PreprepareMessage
 
 	header := ppm.Content().SignedHeader()
 	sender := ppm.Content().Sender()
+	if header.MessageType() != protocol.LEAN_HELIX_PREPREPARE {
+		return errors.Errorf("PREPREPARE signed header has message type %v", header.MessageType())
+	}
 	if err := tic.keyManager.VerifyConsensusMessage(header.BlockHeight(), header.Raw(), sender); err != nil {
 		tic.logger.ConsensusTrace("failed to verify preprepare - maybe a committee mismatch?", err, log.Stringable("sender", sender))
 
@@ -462,6 +465,10 @@ func (tic *TermInCommittee) HandlePrepare(pm *interfaces.PrepareMessage) {
 	header := pm.Content().SignedHeader()
 	sender := pm.Content().Sender()
 
+	if header.MessageType() != protocol.LEAN_HELIX_PREPARE {
+		tic.logger.Info("LHMSG RECEIVED PREPARE IGNORE - signed header has message type %v", header.MessageType())
+		return
+	}
 	if err := tic.keyManager.VerifyConsensusMessage(header.BlockHeight(), header.Raw(), sender); err != nil {
 		tic.logger.Info("LHMSG RECEIVED PREPARE IGNORE - verification failed for Prepare block-height=%v view=%d block-hash=%s err=%v", header.BlockHeight(), header.View(), header.BlockHash(), err)
 		return
@@ -546,6 +553,10 @@ func (tic *TermInCommittee) HandleCommit(cm *interfaces.CommitMessage) {
 	header := cm.Content().SignedHeader()
 	sender := cm.Content().Sender()
 
+	if header.MessageType() != protocol.LEAN_HELIX_COMMIT {
+		tic.logger.Info("LHMSG RECEIVED COMMIT IGNORE - signed header has message type %v", header.MessageType())
+		return
+	}
 	if err := tic.keyManager.VerifyConsensusMessage(header.BlockHeight(), header.Raw(), sender); err != nil {
 		tic.logger.Info("LHMSG RECEIVED COMMIT IGNORE - verification failed for Commit block-height=%d view=%d block-hash=%s err=%v", header.BlockHeight(), header.View(), header.BlockHash(), err)
 		return
@@ -662,8 +673,17 @@ func (tic *TermInCommittee) isViewChangeValid(expectedLeaderFromNewView primitiv
 	vcmView := header.View()
 	preparedProof := header.PreparedProof()
 
+	if header.MessageType() != protocol.LEAN_HELIX_VIEW_CHANGE {
+		return errors.Errorf("VIEW_CHANGE signed header has message type %v", header.MessageType())
+	}
 	if err := tic.keyManager.VerifyConsensusMessage(header.BlockHeight(), header.Raw(), sender); err != nil {
 		return errors.Wrapf(err, "keyManager.VerifyConsensusMessage failed")
+	}
+	if preparedProof != nil && len(preparedProof.Raw()) > 0 {
+		ppRef, pRef := preparedProof.PreprepareBlockRef(), preparedProof.PrepareBlockRef()
+		if ppRef.MessageType() != protocol.LEAN_HELIX_PREPREPARE || pRef.MessageType() != protocol.LEAN_HELIX_PREPARE {
+			return errors.Errorf("prepared proof block refs have message types %v, %v", ppRef.MessageType(), pRef.MessageType())
+		}
 	}
 
 	if !proofsvalidator.ValidatePreparedProof(tic.State.Height(), vcmView, preparedProof, tic.keyManager, tic.committeeMembers, func(view primitives.View) primitives.MemberId { return tic.calcLeaderMemberId(view) }) {
@@ -716,6 +736,10 @@ func (tic *TermInCommittee) HandleNewView(nvm *interfaces.NewViewMessage) {
 	viewChangeConfirmationsIter := nvmHeader.ViewChangeConfirmationsIterator()
 	viewChangeConfirmations := make([]*protocol.ViewChangeMessageContent, 0, 1)
 
+	if nvmHeader.MessageType() != protocol.LEAN_HELIX_NEW_VIEW {
+		tic.logger.Info("LHMSG RECEIVED NEW_VIEW IGNORE - signed header has message type %v", nvmHeader.MessageType())
+		return
+	}
 	if tic.State.View() > nvmHeader.View() {
 		tic.logger.Info("LHMSG RECEIVED NEW_VIEW IGNORE - current view %d is higher than message view %d", tic.State.View(), nvmHeader.View())
 		return
